@@ -56,6 +56,10 @@ checks = {
    "Generated tables (ties, NULLs, single-row and many partitions; every 8th case 200..900 rows with --cpu 2..8) and random analytic expressions (ranking functions, NTILE, LAG/LEAD with offsets/defaults/IGNORE NULLS, FIRST/LAST/NTH_VALUE with random ROWS frames and IGNORE NULLS, aggregates and a user-defined aggregate with OVER and random frames) are evaluated by the real pipeline; an independent evaluator partitions, orders and applies each definition to every row's frame; other columns and the row count must be unchanged.",
    "Unspecified corners are generated only where they cannot influence the verdict: the default frame of an ordered clause without windowing clause, the offset semantics of LAG/LEAD IGNORE NULLS beyond 1, PERCENT_RANK of a single-row partition.",
    "runtime monitor: differential check against an independent per-partition/per-frame evaluator"),
+ "C14": ("exploration", "§5 C14",
+   "Three monitors over real evaluations. (1) Poison-on-discard: a build-tag switch makes value.Discard overwrite the object with a sentinel and never re-issue it; every built-in function (table enumerated at run time) is called with every single and every pair of a 30-value typed operand pool (plus sampled triples) held in variables, and every result, variable, table cell and cursor row is checked for the sentinel; double discards are recorded. (2) A reflection digest of the parsed syntax tree before/after execution. (3) With the shipped recycling allocator, the same expression is evaluated repeatedly through literals, variables, table cells of a cached table, a loop, a function body, a prepared statement and a re-executed parsed statement; results must repeat and variables / the cached table / cursor rows must be unchanged. Plus statement families around cached tables (sub-queries, CTEs, COUNT(*) forms).",
+   "Volatile functions (NOW, RAND, CALL, …) are excluded from the equality monitors only. Internal failures seen on the way are counted and left to C19.",
+   "runtime monitors: poison-on-discard sanitizer hook, syntax-tree digest, repeat-evaluation oracle"),
  "C15": ("exploration", "§5 C15",
    "Generated procedures (nested IF/ELSEIF/CASE/WHILE blocks, shadowing and same-block re-declarations over a three-name alphabet, loops controlled by variables the body shadows, DISPOSE, use after block end, BREAK/CONTINUE/EXIT, functions with defaults, recursion and mutual calls, RETURN inside loops, block-local cursors and temporary tables) are executed by the real processor, 150+ per harness process so pooled scope objects are recycled; an independent reference interpreter with block-scoped environments must produce the same PRINT trace and the same error/no-error outcome. Every 8th case also calls a generated function from a query over 200..700 rows with --cpu 2..8 and compares every row.",
    "Function bodies only use parameters, locals and never-shadowed globals (caller-local visibility is not specified) and do not assign globals (no defined result under parallel invocation). Values are small integers.",
